@@ -13,7 +13,7 @@ import re
 import json
 import os
 
-from rules import c05
+from rules import c05, findrule
 from gsa import facts, ir, kinds, paths, predeval
 from gsa.facts import Unit, rel, AnalysisBroken
 from gsa.report import Check
@@ -281,6 +281,7 @@ def run(tier, replay=None):
     check_map_moves(chk, F)
     check_index_kinds(chk, F)
     c05.run_row_kinds(chk, F, only=('ru_vine_swap.h',), floor=100)
+    findrule.run(chk, F, ('ru_vine_swap.h', 'chain_vine_swap.h'), {}, 'C06', 2)
     check_family(chk, F, 'Chain_vine_swap', CH, ['vine_swap', 'vine_swap_with_z_eq_1_case'], 'swap_positions',
                  kept='columnIndex2', exchanged='columnIndex1',
                  sign_vars={'col1IsNeg': (1, '-'), 'col2IsNeg': (2, '-')}, pairing_only=True)
